@@ -31,7 +31,7 @@ M = [
  ("M16", ["C07"], "shuttle-engine/src/thread_support.rs", "    while let Some(local) = ExecutionState::with(|state| state.current_mut().pop_local()) {\n        tracing::trace!(\"dropping thread local {:p}\", local);\n        drop(local);\n    }\n\n    tracing::trace!(\"done dropping thread locals\");\n\n    *result.lock().unwrap() = Some(Ok(ret));\n    ExecutionState::with(|state| {\n        if let Some(waiter) = state.current_mut().take_waiter() {\n            state.get_mut(waiter).unblock();\n        }\n    });", "    *result.lock().unwrap() = Some(Ok(ret));\n    ExecutionState::with(|state| {\n        if let Some(waiter) = state.current_mut().take_waiter() {\n            state.get_mut(waiter).unblock();\n        }\n    });\n    while let Some(local) = ExecutionState::with(|state| state.current_mut().pop_local()) {\n        drop(local);\n    }", "join result published before the thread-local destructors run"),
  ("M17", ["C08"], "shuttle-engine/src/runtime/execution.rs", "let is_yielding = std::mem::replace(&mut self.has_yielded, false);", "let is_yielding = self.has_yielded;", "the yielding flag is never reset"),
  ("M18", ["C13"], "shuttle-engine/src/runtime/execution.rs", "CurrentSchedule::len() - self.steps_reset_at >= max_steps", "CurrentSchedule::len() - self.steps_reset_at > max_steps", "step bound allows one step too many"),
- ("M19", ["C13"], "shuttle-engine/src/current.rs", "ExecutionState::with(|s| s.steps_reset_at = CurrentSchedule::len());", "ExecutionState::with(|s| s.steps_reset_at = 0);", "reset_step_count does not reset"),
+ ("M19", ["C13"], "shuttle-engine/src/current.rs", "ExecutionState::with(|s| s.steps_reset_at = CurrentSchedule::len());", "ExecutionState::with(|s| s.steps_reset_at = CurrentSchedule::len() * 0);", "reset_step_count does not reset"),
  ("M20", ["C14"], "shuttle-engine/src/runtime/execution.rs", "        LABELS.with(|cell| cell.borrow_mut().clear());\n", "", "labels are not cleared between executions"),
  ("M21", ["C15"], "shuttle-std/src/thread.rs", "            let clock = target.clock.clone();\n            state.update_clock(&clock);", "            let _clock = target.clock.clone();", "join does not inherit the child's clock"),
  ("M22", ["C15"], "shuttle-engine/src/future/batch_semaphore.rs", "            state.permits_available.release(num_permits, clock.clone());", "            let _ = clock;\n            state.permits_available.release(num_permits, VectorClock::new());", "released permits carry an empty clock (unlock -> lock edge lost)"),
@@ -94,6 +94,7 @@ def main():
         keep[mid] = rec
         print(mid, "detected" if rec["detected"] else "MISSED", rec["checks"], flush=True)
         json.dump(sorted(keep.values(), key=lambda r: r["id"]), open("/verif/SENSITIVITY.json", "w"), indent=1)
+    json.dump(sorted(keep.values(), key=lambda r: r["id"]), open("/verif/SENSITIVITY.json", "w"), indent=1)
     sh(f"git -C {repo} checkout -q -- .")
     rows = sorted(keep.values(), key=lambda r: r["id"])
     with open("/verif/SENSITIVITY.md", "w") as f:
